@@ -15,6 +15,7 @@ import (
 )
 
 type Ctx struct {
+	undecidedCTR func(fname, text string) string // contracts reported as not decided (reason) instead of as violations
 	copyFillSeen int // copies checked by copyFillHooks
 	Prog  *core.Program
 	R     *core.Report
